@@ -288,7 +288,11 @@ class SwiftJudge(Judge):
                 except Exception as e:
                     tb = getattr(e, 'traceback', '') or ''
                     last = [l for l in str(tb).strip().split('\n') if l.strip()][-1:] or [str(e)]
-                    bad('%s did not complete: %s: %s' % (row, type(e).__name__, last[0][:200]), '%s_fails' % row)
+                    cls = '%s_fails' % row
+                    if obj['c'].get('tsd') and "Can't handle default value type" in last[0] and \
+                            ('Timestamp' in last[0] or 'Bytes' in last[0]) and name in ('swift_types', 'obj_c_types'):
+                        cls = 'swift_objc_default_of_timestamp_or_bytes'        # recorded in known_findings.json
+                    bad('%s did not complete: %s: %s' % (row, type(e).__name__, last[0][:200]), cls)
                     continue
                 self.count('backend_runs')
                 files = {}
